@@ -121,6 +121,8 @@ def main(pid, tier, seed):
         if k % 4 == 2:
             pool = 'tiers'
             pws = tier_list(rng)
+        if k % 4 == 3:
+            pws = check_train.tie_list(rng, pool)
         res = train.train(pws, ngram=rng.choice([2, 3]), alphabet_size=100, coverage=rng.choice([0.6, 0.5, 1]))
         if not res['ok']:
             continue
@@ -134,11 +136,15 @@ def main(pid, tier, seed):
         pcfg = ptq.load_pcfg(d)
         lang = {}
         total = 0
-        for b, pt in expand.all_pts(pcfg):
+        # the guesser's language as the guesser produces it: the real priority queue run to exhaustion (a pre-terminal the
+        # queue never pops is never emitted), each popped pre-terminal expanded by the real create_guesses
+        hist = ptq.run_history(pcfg, [], with_queue=False, max_pops=60000)
+        for it, _ in hist['sessions'][0]['ev']:
+            pt = it['pt']
             if pt[0][0] == 'M':
                 continue
             lines, n = expand.expand_real(pcfg, pt)
-            p = b['prob']
+            p = it['base_prob']
             for t, i in pt:
                 p *= pcfg.grammar[t][i]['prob']
             for ln in lines:
